@@ -31,5 +31,5 @@ var rejectTemplates = []string{
 	"a = 1\n b = 2\n", "if a:\n    b = 1\n      c = 2\n", "if a:\n        b = 1\n    c = 2\n" /* dedent to unknown level */, "\tif a:\n\t\tpass\n", "if a:\n    pass\n\telse:\n    pass\n",
 	"a = '\\\n", "a = 'x' 'y\n", "a = \"\"\"x\"\"\n", "a = r'\\'\n" /* r'\' is unterminated */, "a = b'\\'\n", "x = 1 if 2 else 3 if\n", "not\n", "a not b\n", "a is is b\n", "a in in b\n", "a not not in b\n", "a is not not b\n" /* legal: a is not (not b) */, "a not in not b\n", /* legal */
 	"yield = 1\n", "class = 1\n", "def = 1\n", "x.class\n", "x.None\n", "x.True = 1\n", "None.x = 1\n" /* legal syntax */, "f(None=1)\n", "f(True=1)\n", "def f(None): pass\n", "def None(): pass\n", "class True: pass\n", "import None\n", "from a import None\n",
-	"import a as None\n", "for None in a: pass\n", "with a as True: pass\n", "lambda None: 0\n", "global None\n", "nonlocal True\n", "del True\n", "None += 1\n", "x = 1 = None\n", "(None) = 1\n", "[None] = [1]\n", "None, a = 1, 2\n", "a, *None = x\n", 
+	"import a as None\n", "for None in a: pass\n", "with a as True: pass\n", "lambda None: 0\n", "global None\n", "nonlocal True\n", "del True\n", "None += 1\n", "x = 1 = None\n", "(None) = 1\n", "[None] = [1]\n", "None, a = 1, 2\n", "a, *None = x\n",
 }
